@@ -530,6 +530,23 @@ fn gen(rng: &mut Rng, tier: &str) -> Vec<(String, Value)> {
     let lb_snap = json!({"origins": [["10.0.0.0/8", 24, 64496, 0], ["192.0.2.0/24", null, 64497, 1], ["2001:db8::/32", 48, 64498, 2], ["198.51.100.0/24", null, 1, 3]],
                          "keys": [[1, 64496, [1, 2, 3], 0], [2, 64497, [255], 2]], "aspas": [[64496, [1, 2], 0], [64497, [], 1], [64498, [4294967295u32], 2]]});
     scenario(&mut cases, "boundary.control_chars_in_names", lb_snap, &lb_infos, Value::Null, false, [true, true, true], 4, true, FORMATS);
+    // (b2) a large data set (more than any batch size an output stream may use) with a selection that admits only the
+    //      last few items in snapshot order, with no selection, and with a selection that admits the first and the last
+    {
+        let mut o: Vec<Value> = Vec::new();
+        for a in 0..6u32 { for b in 0..=255u32 { if o.len() < 1400 { o.push(json!([format!("10.{}.{}.0/24", a, b), null, 65001, (a + b) % 8])); } } }
+        o.push(json!(["203.0.113.0/24", 28, 64999, 1]));
+        o.push(json!(["223.255.255.0/24", null, 64999, 2]));
+        o.push(json!(["2001:db8:ffff::/48", null, 64999, 3]));
+        let big = json!({"origins": o, "keys": [pool.keys[0]], "aspas": [pool.aspas[0]]});
+        let last_only = json!({"res": [["asn", 64999]], "more": false});
+        let first_and_last = json!({"res": [["prefix", "10.0.0.0/24"], ["prefix", "223.255.255.0/24"]], "more": false});
+        for q in [false, true] {
+            scenario(&mut cases, "large.select_last", big.clone(), &pool.infos, last_only.clone(), q, [true, true, true], 5, false, &["json", "jsonext", "slurm", "slurm2", "csv"]);
+        }
+        scenario(&mut cases, "large.select_first_and_last", big.clone(), &pool.infos, first_and_last, true, [true, false, false], 5, false, &["json", "slurm"]);
+        scenario(&mut cases, "large.all", big, &pool.infos, Value::Null, false, [true, true, true], 5, false, &["json", "csv"]);
+    }
     // (c) structured random
     let n = if tier == "thorough" { 400 } else { 24 };
     for i in 0..n {
